@@ -10,7 +10,13 @@ namespace Drv
 `c17_hs <hex 32-byte digest>` → 32-byte little-endian scalar hex (model `HashScalar.hsBytes`, spec `Spec.HashScalar`);
 `c17_hash_to_scalar <hex msg>` → scalar hex (model: `hashToScalar keccak256`; spec: reference Keccak then the spec reduction);
 `c17_trait_hs <hex key>` / `c17_trait_hs_tx <hex tx>` → `Hashable::hash_to_scalar` (model `HashScalar.hashableToScalarBytes`);
-`c17_hs_ctor <ctor> <hex digest>` → as `c17_hs` (the constructor of the `Hash` is irrelevant). -/
+`c17_hs_ctor <ctor> <hex digest>` → as `c17_hs` (the constructor of the `Hash` is irrelevant);
+`c17_seq <order> <hex msg>` → one result per letter of `<order>`, each operation's OWN result whatever preceded it: the digest for
+`n` (`Hash::new`), `k` (`keccak_256`), `p` / `x` (`Hashable::hash` of the public key with these bytes / of the transaction prefix with
+this serialisation — both hash exactly these bytes), the scalar for `s` (`Hash::hash_to_scalar`), `a` (`Hash::new` then `as_scalar`),
+`q` / `y` (`Hashable::hash_to_scalar`). The Lean functions are pure, so the order cannot matter here; it can in the library.
+In `c17_trait_hs`, `c17_trait_hs_tx`, `c17_seq` the DIGEST on the spec side is computed by the same reference Keccak as on the model
+side (and `txHash` / `prefixHash` / `encBase` are the model's on both sides): the spec side is independent for the reduction only. -/
 def stepC17 : Step
   | ["c17_keccak", h] => some ("-", Hex.encode (Keccak.keccak256 (Hex.decode h)))
   | ["c17_hs", h] =>
@@ -47,6 +53,20 @@ def stepC17 : Step
     let d := Hex.decode h
     if d.length != 32 then some ("err", "err") else
     some (Hex.encode (HashScalar.hsBytes d), Hex.encode (Spec.HashScalar.scalarOfDigest d))
+  | ["c17_seq", order, h] =>
+    let m := Hex.decode h
+    let model (c : Char) : String :=
+      if c == 's' then Hex.encode (HashScalar.hashToScalarBytes HashScalar.hashNew m)
+      else if c == 'a' then Hex.encode (HashScalar.hsBytes (HashScalar.hashNew m))
+      else if c == 'q' || c == 'y' then Hex.encode (HashScalar.hashableToScalarBytes HashScalar.hashNew m)
+      else if c == 'n' || c == 'k' || c == 'p' || c == 'x' then Hex.encode (HashScalar.hashNew m)
+      else "bad-op"
+    let d := Keccak.keccak256 m
+    let spec (c : Char) : String :=
+      if c == 's' || c == 'a' || c == 'q' || c == 'y' then Hex.encode (Spec.HashScalar.scalarOfDigest d)
+      else if c == 'n' || c == 'k' || c == 'p' || c == 'x' then Hex.encode d
+      else "bad-op"
+    some (" ".intercalate (order.toList.map model), " ".intercalate (order.toList.map spec))
   | ["c17_hash_to_scalar", h] =>
     let m := Hex.decode h
     some (Hex.encode (HashScalar.hashToScalarBytes HashScalar.hashNew m),
